@@ -82,6 +82,7 @@ func renderVuegoLoad(src []byte) (string, error) {
 type stats struct {
 	tolerated map[string]int
 	skipped   int
+	soup      int
 }
 
 // skip reports whether a generated (non-strict) document touches the region of an open finding
@@ -91,6 +92,12 @@ type stats struct {
 func (s *stats) skip(c Case, fa facts) bool {
 	if c.Strict {
 		return false
+	}
+	if fa.tagSoup {
+		if s != nil {
+			s.soup++
+		}
+		return true
 	}
 	var ids []string
 	for id := range fa.regions {
@@ -464,6 +471,7 @@ func TestProp(t *testing.T) {
 			}
 		}
 		rec.Count("generated-but-in-open-region(skipped)", st.skipped)
+		rec.Count("html-block-with-unclosed-<(skipped)", st.soup)
 	}()
 	shard, shards := run.Shard()
 
